@@ -48,6 +48,7 @@ func defineEmit() {
 // ---- abstract syntax ------------------------------------------------------------------------
 
 type node struct {
+	fname  bool // a symbol naming a user function: may be written in another case
 	isList bool
 	isInt  bool
 	z      int64
@@ -61,6 +62,33 @@ func L(xs ...*node) *node { return &node{isList: true, xs: xs} }
 func call(f string, xs ...*node) *node {
 	return L(append([]*node{Y(f)}, xs...)...)
 }
+func F(s string) *node { return &node{sym: s, fname: true} }
+func ucall(f string, xs ...*node) *node {
+	return L(append([]*node{F(f)}, xs...)...)
+}
+
+// caseRng decides how a function name is spelled in the Lisp text (the model sees the lower-case name:
+// function names are case-insensitive)
+var caseRng *common.Rng
+
+// mixedCaseNames relies on repo fix C08-2 (defun registers the lower-case name); set it to false if that fix is
+// not taken: the defect is then a known finding and function names must be written in lower case only.
+const mixedCaseNames = true
+
+func spell(s string) string {
+	if caseRng == nil || !mixedCaseNames {
+		return s
+	}
+	switch x := caseRng.Intn(100); {
+	case x < 6:
+		return strings.ToUpper(s)
+	case x < 12:
+		return strings.ToUpper(s[:1]) + s[1:]
+	case x < 15:
+		return s[:len(s)-1] + strings.ToUpper(s[len(s)-1:])
+	}
+	return s
+}
 
 // inst renders a form as Lisp text and as a Gallina term; every list gets the next identity, in reader order.
 func inst(n *node, next *int, lisp, gal *strings.Builder) {
@@ -69,7 +97,11 @@ func inst(n *node, next *int, lisp, gal *strings.Builder) {
 		fmt.Fprintf(lisp, "%d", n.z)
 		fmt.Fprintf(gal, "SInt (%d)%%Z", n.z)
 	case !n.isList:
-		lisp.WriteString(n.sym)
+		if n.fname {
+			lisp.WriteString(spell(n.sym))
+		} else {
+			lisp.WriteString(n.sym)
+		}
 		fmt.Fprintf(gal, "SSym \"%s\"", n.sym)
 	default:
 		id := *next
@@ -131,7 +163,7 @@ func (g *gen) userCall(target *fn, self *fn, guarded bool, depth int) *node {
 	for i := 0; i < k; i++ {
 		args = append(args, g.exprT(self, guarded, depth+1, g.r(100) < 85))
 	}
-	return call(target.name, args...)
+	return ucall(target.name, args...)
 }
 
 func (g *gen) atom(self *fn) *node {
@@ -145,12 +177,43 @@ func (g *gen) atom(self *fn) *node {
 	return I(int64(g.r(7)))
 }
 
+// mv wraps an expression into a form that returns multiple values whose first value is (a function of) it
+func (g *gen) mv(e *node) *node {
+	switch g.r(5) {
+	case 0:
+		return call("floor", e, I(int64(2+g.r(3))))
+	case 1:
+		return call("values", e)
+	case 2:
+		return call("values", e, call("emit", I(int64(g.r(7)))))
+	case 3:
+		return call("values", e, I(int64(g.r(7))), I(int64(g.r(7))))
+	default:
+		return call("values", e, Y("nil"))
+	}
+}
+
 func (g *gen) expr(self *fn, guarded bool, depth int) *node {
 	return g.exprT(self, guarded, depth, false)
 }
 
 // exprT: num asks for something that is (most probably) a number
 func (g *gen) exprT(self *fn, guarded bool, depth int, num bool) *node {
+	e := g.exprU(self, guarded, depth, num)
+	// multiple-value producers in every position (argument of built-ins and user functions, test and
+	// branches of if, whole bodies, main forms); floor needs a number
+	if x := g.r(100); x < 11 {
+		if num || e.isInt {
+			return g.mv(e)
+		}
+		return call("values", e, I(int64(g.r(7))))
+	} else if x < 13 && !num {
+		return common.Pick(g.ctx.Rng, []*node{call("values"), Y("nil"), Y("t"), call("values", Y("nil"), I(1))})
+	}
+	return e
+}
+
+func (g *gen) exprU(self *fn, guarded bool, depth int, num bool) *node {
 	if depth >= 3 {
 		return g.atom(self)
 	}
@@ -171,7 +234,29 @@ func (g *gen) exprT(self *fn, guarded bool, depth int, num bool) *node {
 		return call("emit", g.exprT(self, guarded, depth+1, num))
 	case x < 66:
 		return call("progn", g.expr(self, guarded, depth+1), g.exprT(self, guarded, depth+1, num))
-	case x < 74:
+	case x < 71:
+		// case: the key is an evaluated argument, the clauses are not (SkipEval {false, true}); the forms of
+		// the selected clause are converted in place inside the clause list
+		cl := []*node{Y("case"), g.exprT(self, guarded, depth+1, true)}
+		nc := 1 + g.r(3)
+		for i := 0; i < nc; i++ {
+			var key *node
+			if g.r(3) == 0 {
+				key = L(I(int64(g.r(7))), I(int64(g.r(7))))
+			} else {
+				key = I(int64(g.r(7)))
+			}
+			forms := []*node{key}
+			for j := g.r(3); j >= 0 && len(forms) < 3; j-- {
+				forms = append(forms, g.exprT(self, guarded, depth+1, num))
+			}
+			cl = append(cl, L(forms...))
+		}
+		if g.r(2) == 0 {
+			cl = append(cl, L(Y("t"), g.exprT(self, guarded, depth+1, num)))
+		}
+		return L(cl...)
+	case x < 77:
 		c := call("<", g.exprT(self, guarded, depth+1, true), I(int64(g.r(5))))
 		if g.r(4) == 0 {
 			return call("if", c, g.exprT(self, guarded, depth+1, num))
@@ -241,7 +326,7 @@ func (g *gen) defun(f *fn) *node {
 	for i, p := range f.params {
 		ps[i] = Y(p)
 	}
-	return L(append([]*node{Y("defun"), Y(f.name), L(ps...)}, g.body(f)...)...)
+	return L(append([]*node{Y("defun"), F(f.name), L(ps...)}, g.body(f)...)...)
 }
 
 func (g *gen) mainForm() *node {
@@ -254,7 +339,11 @@ func (g *gen) mainForm() *node {
 		}
 		return c
 	}
-	return g.expr(nil, false, 0)
+	e := g.expr(nil, false, 0)
+	if !e.isList {
+		e = call("progn", e) // Code.Eval skips a top-level nil; atoms at top level are not in the fragment
+	}
+	return e
 }
 
 // ---- running on the implementation -------------------------------------------------------------
@@ -274,6 +363,14 @@ func gvalue(o slip.Object) (string, string) {
 		return fmt.Sprintf("VInt (%d)%%Z", int64(tv)), fmt.Sprint(int64(tv))
 	case slip.Symbol:
 		return fmt.Sprintf("VSym \"%s\"", strings.ToLower(string(tv))), strings.ToLower(string(tv))
+	case slip.Values:
+		var gs, ss []string
+		for _, e := range tv {
+			a, b := gvalue(e)
+			gs = append(gs, a)
+			ss = append(ss, b)
+		}
+		return "VVals [" + strings.Join(gs, "; ") + "]", "#values(" + strings.Join(ss, " ") + ")"
 	case slip.List:
 		if len(tv) == 0 {
 			return "VNil", "nil"
@@ -455,8 +552,8 @@ type program struct {
 
 func rename(n *node, from, to string) *node {
 	if !n.isList {
-		if !n.isInt && strings.HasPrefix(n.sym, from) {
-			return Y(to + n.sym[len(from):])
+		if !n.isInt && strings.Contains(n.sym, from) {
+			return &node{sym: strings.Replace(n.sym, from, to, 1), fname: n.fname}
 		}
 		return n
 	}
@@ -471,7 +568,10 @@ func genProgram(ctx *common.Ctx, prefix string) *program {
 	g := &gen{ctx: ctx}
 	nf := 2 + ctx.Rng.Intn(4)
 	for i := 0; i < nf; i++ {
-		f := &fn{name: fmt.Sprintf("%s%c", prefix, 'a'+i), level: i, params: []string{"n"}}
+		// names that share a prefix with special operators and defining forms (Code.Compile and CompileList
+		// look at the head symbol's name)
+		pre := common.Pick(ctx.Rng, []string{"", "", "", "def", "def", "default-", "defun-", "defvar-", "let", "let*", "set", "setq-", "if-", "lambda-", "quote-", "progn"})
+		f := &fn{name: fmt.Sprintf("%s%s%c", pre, prefix, 'a'+i), level: i, params: []string{"n"}}
 		np := ctx.Rng.Intn(3)
 		for j := 0; j < np; j++ {
 			f.params = append(f.params, pool[j])
@@ -610,8 +710,12 @@ func play(ctx *common.Ctx, p *program, tmpl int, order []int, compileMains bool,
 			}
 		}
 	case tBetween:
-		cut := ctx.Rng.Intn(len(defs) + 1)
-		forms := append(append(append([]*node{}, defs[:cut]...), p.mains...), defs[cut:]...)
+		// the main forms (top-level calls with side effects) at random places between the definitions
+		forms := append([]*node{}, defs...)
+		for _, m := range p.mains {
+			at := ctx.Rng.Intn(len(forms) + 1)
+			forms = append(forms[:at], append([]*node{m}, forms[at:]...)...)
+		}
 		h.load(0, forms)
 		if compileMains {
 			h.compile(0)
@@ -625,6 +729,7 @@ func play(ctx *common.Ctx, p *program, tmpl int, order []int, compileMains bool,
 
 func Run(ctx *common.Ctx) {
 	defineEmit()
+	caseRng = ctx.Rng
 	ngroups := 600
 	if ctx.Thorough() {
 		ngroups = 3000
@@ -674,6 +779,20 @@ func Run(ctx *common.Ctx) {
 				continue
 			}
 			for _, r := range h.recs {
+				if r.Op == "load" {
+					for _, kw := range []string{"(case ", "(floor ", "(values", "(def", "(let", "(set"} {
+						n := strings.Count(strings.ToLower(r.Lisp), kw)
+						if kw == "(def" {
+							n -= strings.Count(strings.ToLower(r.Lisp), "(defun ")
+						}
+						if n > 0 {
+							ctx.Hist("loads-with:" + kw)
+						}
+					}
+					if strings.ToLower(r.Lisp) != r.Lisp {
+						ctx.Hist("loads-with:other-case-name")
+					}
+				}
 				if r.Op == "run" {
 					key := strings.SplitN(r.Outcome, " ", 2)[0]
 					if !strings.HasPrefix(key, "!") {
@@ -722,7 +841,7 @@ func Run(ctx *common.Ctx) {
 		}
 	}
 	ctx.Meta.DistinctNontrivial = len(distinct)
-	ctx.Meta.Rule = "programs of 2-5 functions over +,-,<,list,progn,if,emit with calls in argument position to functions of lower level and recursive calls (to any function, mutual recursion included) under (if (< n 1) ..); 0-2 rounds of redefinitions; 1-3 main forms; random definition order; seven history templates over code objects (one of them the REPL/load discipline: each form read, compiled and evaluated on its own) (load, Code.Compile, Code.Eval k=1..5 times, definitions before/after/between the main forms, redefinition between runs, fresh re-reading); wrong argument counts in 7% of the calls; evaluations = evaluations of a code object; distinct = distinct histories up to the name prefix"
+	ctx.Meta.Rule = "programs of 2-5 functions (names sharing prefixes with def*/let*/set*/if/lambda/quote/progn forms, 15% of the occurrences of a function name written in another case) over +,-,<,list,progn,if,case,floor,values,nil,t,emit (multiple-value producers in every argument position, as branches, bodies and main forms) with calls in argument position to functions of lower level and recursive calls (to any function, mutual recursion included) under (if (< n 1) ..); 0-2 rounds of redefinitions; 1-3 main forms; random definition order; seven history templates over code objects (one of them the REPL/load discipline: each form read, compiled and evaluated on its own) (load, Code.Compile, Code.Eval k=1..5 times, definitions before/after/between the main forms, redefinition between runs, fresh re-reading); wrong argument counts in 7% of the calls; evaluations = evaluations of a code object; distinct = distinct histories up to the name prefix"
 	header := "From Coq Require Import List ZArith String.\nFrom C08 Require Import Model Spec Corr.\nImport ListNotations.\nOpen Scope string_scope.\nOpen Scope list_scope.\n"
 	footer := "Definition res := Eval vm_compute in check_all cases.\nPrint res.\nDefinition gcount := Eval vm_compute in guard_count cases.\nPrint gcount.\nDefinition outside := Eval vm_compute in outside_count cases.\nPrint outside.\nDefinition deviations := Eval vm_compute in deviation_count cases.\nPrint deviations.\n"
 	ctx.WriteShards("cases", header, "case", footer, terms, descs, 16)
